@@ -26,7 +26,7 @@ ASSUMPTIONS = ['domain as stated by the property: rectangular tables, unique key
 KINDS = ['melt-recast', 'melt', 'transpose', 'flatten', 'unflatten-period', 'pivot', 'unpack', 'unpackdict', 'capture', 'split', 'splitdown',
          'dicts-roundtrip', 'columns-roundtrip']
 REQUIRED = (['kind:' + k for k in KINDS] + ['none-key', 'compound-key', 'key-not-leading', 'one-column', 'period=1', 'period=width',
-            'pivot-missing-pair', 'field-by-index', 'include-original', 'explicit-variables-permuted'])
+            'pivot-missing-pair', 'field-by-index', 'include-original', 'explicit-variables-permuted', 'fromdicts-sample<nrows'])
 VALS = [None, 0, 1, 2.5, 'a', 'b', '', b'x', (1, 2), gen.D(2020, 1, 1), True]
 KEYS = [None, 1, 2, 3, 'a', 'b', b'a', (1, 2), 2.5, gen.D(2020, 1, 1)]
 NAMES = ['alpha', 'beta', 'gamma', 'delta', 'eps']
@@ -330,7 +330,18 @@ def judge(case, ctx):
         if d:
             return d
         got = util.attempt_rows(lambda: petl.fromdicts(list(petl.dicts(copy.deepcopy(case['table']))), header=list(hdr)))
-        return _diff(got, [tuple(hdr)] + rows, 'fromdicts(list(dicts), header)')
+        d = _diff(got, [tuple(hdr)] + rows, 'fromdicts(list(dicts), header)')
+        if d:
+            return d
+        # header discovery samples the first `sample` records: every record carries every field, so any sample >= 1 must do
+        for sample in range(1, len(rows) + 2):
+            for src in (lambda: list(petl.dicts(copy.deepcopy(case['table']))), lambda: (x for x in list(petl.dicts(copy.deepcopy(case['table']))))):
+                got = util.attempt_rows(lambda: petl.fromdicts(src(), sample=sample))
+                d = _diff(got, [tuple(hdr)] + rows, 'fromdicts(dicts, sample=%d)' % sample)
+                if d:
+                    return d
+        ctx.seen('fromdicts-sample<nrows')
+        return None
     if kind == 'columns-roundtrip':
         cols = util.attempt(lambda: petl.columns(table))
         if isinstance(cols, util.Raised):
